@@ -83,9 +83,23 @@ Record view := {
   v_params : list (str * list str);
   v_parts : list (str * uval);
   v_body : str;
-  v_user : str; v_admin : bool; v_auth : bool; v_bearer : bool;
-  v_perms : list str
+  v_user : str; v_admin : bool; v_auth : bool; v_bearer : bool;   (* v_bearer: a bearer token was presented (session.Token != "") *)
+  v_perms : list str;
+  v_authn : N                                  (* req.Authentication: 0 "none", 1 "user", 2 "token" *)
 }.
+
+(* service.go: authType from session.Authenticated and session.Token *)
+Definition authn_inproc (authenticated token_presented : bool) : N :=
+  if authenticated then (if token_presented then 2 else 1) else 0.
+(* child.go runChildRequest: authType from r.Authenticated and r.Bearer *)
+Definition authn_child (authenticated bearer : bool) : N :=
+  if authenticated then (if bearer then 2 else 1) else 0.
+
+(* the request as service.go hands it to the program; the caller fields come from the session *)
+Definition inproc_view (q : view) : view :=
+  {| v_method := v_method q; v_headers := v_headers q; v_params := v_params q; v_parts := v_parts q; v_body := v_body q;
+     v_user := v_user q; v_admin := v_admin q; v_auth := v_auth q; v_bearer := v_bearer q; v_perms := v_perms q;
+     v_authn := authn_inproc (v_auth q) (v_bearer q) |}.
 
 Definition map_vals {A B} (f : A -> B) (l : list (str * A)) : list (str * B) := map (fun kv => (fst kv, f (snd kv))) l.
 
@@ -98,7 +112,8 @@ Definition child_view (q : view) : view :=
      v_parts := map (fun kv => (json_str (fst kv), UStr (json_str (ustring (snd kv))))) (v_parts q);
      v_body := json_str (v_body q);
      v_user := json_str (v_user q); v_admin := v_admin q; v_auth := v_auth q; v_bearer := v_bearer q;
-     v_perms := map json_str (v_perms q) |}.
+     v_perms := map json_str (v_perms q);
+     v_authn := authn_child (v_auth q) (v_bearer q) |}.
 
 Definition is_ustr (v : uval) : bool := match v with UStr _ => true | _ => false end.
 Definition strs_valid (l : list str) : bool := forallb utf8_valid l.
